@@ -1,2 +1,3 @@
 //! Shared generators (proptest strategies).
 pub mod text;
+pub mod wb;
